@@ -623,23 +623,53 @@ func checkC15Rule(c *C15Case) Result {
 			return res
 		}
 	}
+	// a sibling rule in the same WAF with another list under another name: the same text cut at other phrase
+	// boundaries. Each rule decides membership of its own list.
+	var sib []string
+	sibRule := ""
+	if opName == "pmFromDataset" {
+		joined := strings.Join(c.Phrases, "")
+		switch {
+		case len(c.Phrases) >= 2:
+			sib = []string{joined}
+		case len(joined) >= 2:
+			sib = []string{joined[:len(joined)/2], joined[len(joined)/2:]}
+		}
+		for _, p := range sib {
+			if p == "" || p != strings.TrimSpace(p) || strings.HasPrefix(p, "#") || !safeArg(p) || !isASCII([]byte(p)) {
+				sib = nil
+				break
+			}
+		}
+		if sib != nil {
+			pre += "SecDataset sib `\n" + strings.Join(sib, "\n") + "\n`\n"
+			sibRule = "\nSecRule REQUEST_HEADERS:x \"@pmFromDataset sib\" \"id:2,phase:1,pass,t:none\""
+		}
+	}
 	for _, neg := range []bool{false, true} {
 		n := ""
 		if neg {
 			n = "!"
 		}
-		conf := pre + fmt.Sprintf("SecRule REQUEST_HEADERS:x \"%s@%s %s\" \"id:1,phase:1,pass,t:none\"", n, opName, arg)
+		conf := pre + fmt.Sprintf("SecRule REQUEST_HEADERS:x \"%s@%s %s\" \"id:1,phase:1,pass,t:none\"", n, opName, arg) + sibRule
 		w, err := newWAF(conf)
 		if err != nil {
 			res.Fail = failf("configuration rejected: %v\n%s", err, conf)
 			return res
 		}
-		fired := false
+		fired, firedSib := false, false
 		f := guard("rule", func() {
 			tx := w.NewTransaction()
 			tx.AddRequestHeader("x", string(c.Input))
 			tx.ProcessRequestHeaders()
-			fired = len(tx.MatchedRules()) > 0
+			for _, mr := range tx.MatchedRules() {
+				switch mr.Rule().ID() {
+				case 1:
+					fired = true
+				case 2:
+					firedSib = true
+				}
+			}
 			tx.ProcessLogging()
 			_ = tx.Close()
 		})
@@ -651,6 +681,13 @@ func checkC15Rule(c *C15Case) Result {
 		if fired != (want != neg) {
 			res.Fail = failf("%s on header value %q: rule fired=%v, predicate=%v negated=%v", conf, c.Input, fired, want, neg)
 			return res
+		}
+		if sib != nil {
+			if wantSib := len(naivePMHits(sib, string(c.Input))) > 0; firedSib != wantSib {
+				res.Fail = failf("%s on header value %q: sibling rule 2 (list %q) fired=%v, its own list says %v", conf, c.Input, sib, firedSib, wantSib)
+				return res
+			}
+			res.Labels = append(res.Labels, "sibling-list-other-boundaries")
 		}
 	}
 	res.NonTrivial = true
